@@ -137,3 +137,10 @@ Example C12_example_history :
   reopen true (close true 2 h) = Some h /\ length (undo_list h) <= 2.
 Proof. exact (conj eq_refl (le_n 2)). Qed.
 Print Assumptions C12_example_history.
+
+(* The whole stored object information {path: {scope: ScopeInfo}} survives the save/load pair. *)
+Theorem C12_objectdb_roundtrip :
+  forall (isdig : N -> bool), (forall c, is_ascii_digit c = true -> isdig c = true) ->
+  forall d, wf_db d = true -> exists d', save_db isdig d = Some d' /\ load_db isdig d' = Some d.
+Proof. exact objectdb_roundtrip. Qed.
+Print Assumptions C12_objectdb_roundtrip.
